@@ -271,6 +271,7 @@ def run(ctx):
     else:
         r3.fail(fg.qualname, "partition-args", fg.file, fg.lineno, "__Get_partitioned_groupElems", f"partition data ({', '.join(args)}) are not passed as (owned elements, owned nodes, rank, ghost elements) = {ps}")
 
+    ownership_rule(ctx, fg)
     r4 = ctx.rule("R20.4", "merge bookkeeping: the node mapping of mesh i is old_to_new[off_i : off_i + size_i] with the offsets used to shift its connectivity", min_instances=1)
     fm = repo.cls(MESH).methods["Merge"]
     r4.instance(fn=fm.qualname)
@@ -299,3 +300,55 @@ def run(ctx):
         r4.ok("Merge: connect + off and mapping[off : off + size] use the same exclusive prefix sums of the node counts")
     else:
         r4.fail(fm.qualname, "offsets", fm.file, fm.lineno, "Mesh.Merge", f"offset bookkeeping changed (shift={shift}, mapping={mapping}, offsets={offs})")
+
+
+def ownership_rule(ctx, fg):
+    """R20.5: node ownership is exclusive and exhaustive by construction: the nodes a rank claims are the nodes of
+    its own elements minus the nodes claimed by ALL other ranks, and the claim is recorded in the shared table
+    before the next rank is processed."""
+    from ..flow import must_pass, Locals
+
+    r = ctx.rule("R20.5", "node ownership: claimed = nodes(own elements) - union(nodes claimed by every other rank); the claim is recorded in the shared per-rank table inside the same rank iteration", min_instances=2)
+    L = Locals(fg.node)
+    loops = [n for n in ast.walk(fg.node) if isinstance(n, ast.For) and isinstance(n.iter, ast.Call) and dotted(n.iter.func) == "range" and isinstance(n.target, ast.Name)]
+    found = None
+    for lp in loops:
+        rank = lp.target.id
+        for i, st in enumerate(lp.body):
+            if isinstance(st, ast.Assign) and isinstance(st.value, ast.BinOp) and isinstance(st.value.op, ast.Sub) and isinstance(st.targets[0], ast.Name):
+                left, right = st.value.left, L.resolve(st.value.right)
+                if isinstance(left, ast.Call) and dotted(left.func) == "set" and ".ravel()" in norm_text(left):
+                    found = (lp, rank, i, st, right)
+    r.instance(fn=fg.qualname)
+    if found is None:
+        r.fail(fg.qualname, "claim", fg.file, fg.lineno, "__Get_partitioned_groupElems", "no statement claims set(connect_r.ravel()) - <nodes of the other ranks> inside the rank loop")
+        return
+    lp, rank, i, st, right = found
+    # right = set().union(*(table[r] for r in range(N) if r != rank))
+    gens = [g for g in ast.walk(right) if isinstance(g, ast.GeneratorExp)]
+    ok = False
+    table = None
+    if isinstance(right, ast.Call) and isinstance(right.func, ast.Attribute) and right.func.attr == "union" and gens:
+        g = gens[0]
+        c = g.generators[0]
+        if isinstance(g.elt, ast.Subscript) and isinstance(g.elt.value, ast.Name) and isinstance(c.target, ast.Name) and norm_text(g.elt.slice) == c.target.id and len(c.ifs) == 1:
+            t = c.ifs[0]
+            if isinstance(t, ast.Compare) and isinstance(t.ops[0], ast.NotEq) and {norm_text(t.left), norm_text(t.comparators[0])} == {c.target.id, rank} and isinstance(c.iter, ast.Call) and dotted(c.iter.func) == "range" and norm_text(c.iter.args[0]) == norm_text(lp.iter.args[0]):
+                ok = True
+                table = g.elt.value.id
+    if ok:
+        r.ok(f"claimed = set(own connectivity) - union({table}[r] for every r != {rank})")
+    else:
+        r.fail(fg.qualname, "claim-excludes-all-others", fg.file, st.lineno, "__Get_partitioned_groupElems", f"the nodes subtracted from the rank's own nodes are `{norm_text(right)[:90]}`, not the union over every other rank of the shared table: a node on an interface can be owned twice or by nobody")
+    r.instance(fn=fg.qualname)
+    claimed = st.targets[0].id
+
+    def records(s):
+        return (isinstance(s, ast.Expr) and isinstance(s.value, ast.Call) and isinstance(s.value.func, ast.Attribute) and s.value.func.attr == "update" and isinstance(s.value.func.value, ast.Subscript)
+                and isinstance(s.value.func.value.value, ast.Name) and (table is None or s.value.func.value.value.id == table) and norm_text(s.value.func.value.slice) == rank
+                and s.value.args and norm_text(s.value.args[0]) == claimed)
+
+    if table is not None and must_pass(lp.body[i + 1:], records):
+        r.ok(f"{table}[{rank}].update(claimed) before the next rank")
+    else:
+        r.fail(fg.qualname, "claim-recorded", fg.file, st.lineno, "__Get_partitioned_groupElems", "the claimed nodes are not recorded in the shared per-rank table within the rank iteration: the following ranks claim the interface nodes again")
